@@ -15,12 +15,13 @@ from verif.stubs.pydeque import patched_deque
 
 PROPERTY = "C01"
 B = h.bounds(
-    quick=dict(LEN=2, FLOW=2, NK=15, BUF=2, FREECTX=0),
-    thorough=dict(LEN=3, FLOW=3, NK=15, BUF=3, FREECTX=1),
+    quick=dict(LEN=2, FLOW=2, NK=16, BUF=2, FREECTX=0),
+    thorough=dict(LEN=3, FLOW=3, NK=16, BUF=3, FREECTX=1),
 )
 KINDS = ["callable add3", "Variable x2", "Filter even", "Slice(1,3)", "Slice(2)", "Slice(-1)",
          "Slice(None,None,2)", "Count", "RunIf(positive, add3)", "Reverse", "End", "Sum (fill/compute)",
-         "StoreFilled", "Split([add3, add10], bufsize)", "nested Sequence(add3, Slice(2))"]
+         "StoreFilled", "Split([add3, add10], bufsize)", "nested Sequence(add3, Slice(2))",
+         "callable with a non-callable run attribute"]
 BOUNDS = dict(vars(B), kinds=KINDS, meaning="element lists of length 0..LEN over `kinds`; flows of "
               "<= FLOW symbolic ints, bare or (data, context); 6 forms: flat, left-nested, "
               "right-nested, every element wrapped, Source with an iterable "
@@ -61,7 +62,27 @@ def _positive(v):
     return True if d > 0 else False
 
 
+class _CallableWithRunStub(object):
+    """A plain callable that carries a non-callable `run` attribute."""
+    run = None
+
+    def __call__(self, v):
+        return add3(v)
+
+
+class _RunNotCallable(object):
+    """Not an element: its `run` attribute exists but is not callable."""
+    run = None
+
+
+class _FillNotCallable(object):
+    fill = 5
+    compute = None
+
+
 def make(kind, bufsize):
+    if kind == 15:
+        return _CallableWithRunStub()
     if kind == 0:
         return add3
     if kind == 1:
@@ -175,7 +196,7 @@ def check_compose(n: int, k0: int, k1: int, k2: int, form: int, bufsize: int,
     return h.ok(got == want)
 
 
-BAD = [5, None, "s", object(), [1], 2.5]
+BAD = [5, None, "s", object(), [1], 2.5, _RunNotCallable(), _FillNotCallable()]
 
 
 def check_bad_element(n: int, k0: int, k1: int, pos: int, bad: int, src: bool) -> bool:
@@ -184,7 +205,7 @@ def check_bad_element(n: int, k0: int, k1: int, pos: int, bad: int, src: bool) -
     pre: 0 <= k0 < B.NK and k1 == 7
     pre: h.in_shard(k0)
     pre: 0 <= pos <= n
-    pre: 0 <= bad <= 5
+    pre: 0 <= bad <= 7
     post: _
     """
     els = [make(k, 1) for k in [k0, k1][:n]]
@@ -223,11 +244,11 @@ def check_flatten(n: int, k0: int, k1: int, k2: int, shape: int) -> bool:
 
 
 CONDITIONS = [
-    dict(fn="check_compose", shards=(44, 90), budget=(80, 1500),
+    dict(fn="check_compose", shards=(48, 96), budget=(80, 1500),
          smoke=["check_compose(2, 1, 7, 0, 0, 1, [1, 2], True)", "check_compose(2, 11, 0, 0, 5, 1, [1, 2], False)",
                 "check_compose(2, 13, 5, 0, 2, 2, [1, 2], True)", "check_compose(0, 0, 0, 0, 4, 1, [4], False)",
                 "check_compose(2, 14, 9, 0, 3, 1, [4, 6], False)"]),
-    dict(fn="check_bad_element", shards=(15, 15), budget=(70, 600),
+    dict(fn="check_bad_element", shards=(16, 16), budget=(70, 600),
          smoke=["check_bad_element(2, 0, 7, 1, 1, False)", "check_bad_element(0, 0, 7, 0, 2, True)"]),
     dict(fn="check_flatten", budget=(60, 600), smoke=["check_flatten(3, 0, 11, 3, 1)"]),
 ]
